@@ -213,7 +213,7 @@ void bn_div_rem_dig(bn_t c, dig_t *d, const bn_t a, dig_t b) {
 		}
 
 		if (d != NULL) {
-			if (bn_sign(a) == RLC_NEG) {
+			if (bn_sign(a) == RLC_NEG && r != 0) {
 				*d = b - r;
 			} else {
 				*d = r;
